@@ -1063,8 +1063,16 @@ fiSIntLength(FiSInt i)
 FiSInt
 fiSIntTimesMod(FiSInt a,FiSInt  b,FiSInt m)
 {
-	/*!! Not yet implemented */
-	return 0;
+	/* (a * b) mod m for m > 0 and 0 <= a, b < m, through the double word product. */
+#ifndef OPT_NoDoubleOps
+	FiWord	hi, lo, qhi, qlo, r;
+
+	fiWordTimesDouble((FiWord) a, (FiWord) b, &hi, &lo);
+	fiWordDivideDouble(hi, lo, (FiWord) m, &qhi, &qlo, &r);
+	return (FiSInt) r;
+#else
+	return (a * b) % m;
+#endif
 }
 
 FiSInt
